@@ -2,7 +2,7 @@
 
 E3: the UNMODIFIED engine_plugin.cc / engine_global_table.h compiled with the vsched prelude
 and linked statically with the rest of the tree; 2 registrars + 1 reader under the controlled
-scheduler, all schedules with <= P preemptions, fresh forked process per execution (the tables
+scheduler, all schedules with <= P preemptions, tables rolled back to their start-up content before every execution (they
 are process-global), table pre-filled so that the concurrent registrations cross the 15|16
 block boundary.  E2: all sequential registration histories up to a depth over the plugin and
 resource-provider tables against a dictionary reference model.
@@ -15,8 +15,7 @@ from .. import build, core
 LEVEL = "model_checking"
 META = dict(
     category=LEVEL,
-    technique="stateless model checking of the real global tables under a controlled scheduler (preemption-bounded, "
-              "fork per execution) + exhaustive sequential registration histories vs a dictionary model",
+    technique="stateless model checking of the real global tables under a controlled scheduler (preemption-bounded) + exhaustive sequential registration histories vs a dictionary model",
     text="All interleavings with <=2 (thorough 3) preemptions of two registering threads (new object, identical "
          "re-registration, conflicting re-registration, case-variant name, second table) and a reader that resolves "
          "count / by-slot / by-name, on the unmodified GlobalTable code with scheduling points before and after every "
@@ -43,7 +42,8 @@ def scenarios(thorough):
 
 
 def _run(args):
-    x, sc, prefill, bound, cap = args
+    x, sc, prefill, bound, cap = args[:5]
+    shard, nshards = (args[5], args[6]) if len(args) > 5 else (0, 1)
     part = core.Part()
     if sc.startswith("seq:"):
         depth, shard, nsh = sc[4:].split("/")
@@ -63,7 +63,7 @@ def _run(args):
         if r.returncode not in (0, 1):
             part.violation("harness c40 seq", "driver failed rc=%d %s" % (r.returncode, r.stderr[-300:]), {})
         return part
-    r = subprocess.run([x, "explore", sc, str(prefill), str(bound), "0", "1", str(cap)], capture_output=True, text=True)
+    r = subprocess.run([x, "explore", sc, str(prefill), str(bound), str(shard), str(nshards), str(cap)], capture_output=True, text=True)
     if r.returncode not in (0, 1) or not r.stdout.strip():
         part.violation("harness c40 %s" % sc, "driver failed rc=%d: %s" % (r.returncode, r.stderr[-400:]), {"scenario": sc})
         return part
@@ -76,7 +76,8 @@ def _run(args):
     for o in res["outcome_samples"]:
         part["outcomes"].add("%s/%d:%s" % (sc, prefill, o))
     part.add("distinct_outcomes_sum", res["distinct_outcomes"])
-    part.add("scenarios", 1)
+    if shard == 0:
+        part.add("scenarios", 1)
     if res["capped"]:
         part["capped"] = True
     if res["failures"]:
@@ -85,8 +86,8 @@ def _run(args):
                        "scenario %s prefill %d schedule %s: %s" % (sc, prefill, res["first_failure_schedule"], what),
                        {"scenario": sc, "prefill": prefill, "schedule": res["first_failure_schedule"],
                         "cmd": "c40_registry replay %s %d %s" % (sc, prefill, res["first_failure_schedule"])})
-    if res["schedule_samples"]:
-        part["samples"].append({"scenario": sc, "prefill": prefill, "schedule": res["schedule_samples"][0][:100],
+    if shard == 0:
+        part["samples"].append({"scenario": sc, "prefill": prefill, "schedule": (res["schedule_samples"] or [""])[0][:100],
                                 "outcome": (res["outcome_samples"] or [""])[0][:140]})
     return part
 
@@ -110,21 +111,26 @@ def _chunk(chunk):
 def run(ctx):
     x = exe()
     bound = ctx.q(2, 3)
-    cap = ctx.q(30000, 600000)
+    cap = ctx.q(15000, 300000)
     jobs = []
+    nshard = ctx.q(4, 8)
+    deep = {"A,B", "A,X", "A,a"}     # quick: the full preemption bound on three scenarios, one less on the others
     for sc in scenarios(ctx.thorough):
         for prefill in ((14,) if not ctx.thorough else (14, 29, 0)):
-            jobs.append((x, sc, prefill, bound, cap))
-    depth = ctx.q(4, 5)
-    nsh = 16
+            b = bound if (ctx.thorough or sc in deep) else bound - 1
+            ns = nshard if b == bound else 1
+            for sh in range(ns):
+                jobs.append((x, sc, prefill, b, cap, sh, ns))
+    depth = ctx.q(5, 6)
+    nsh = 4
     for d in range(1, depth + 1):
-        for s in range(nsh if d >= 3 else 1):
-            jobs.append((x, "seq:%d/%d/%d" % (d, s, nsh if d >= 3 else 1), 14 if d % 2 == 0 else 0, 0, 0))
+        for s in range(nsh if d >= 5 else 1):
+            jobs.append((x, "seq:%d/%d/%d" % (d, s, nsh if d >= 5 else 1), 14 if d % 2 == 0 else 0, 0, 0))
     core.pmap(ctx, _chunk, jobs, nchunks=len(jobs))
     ctx.extra["preemption_bound"] = bound
     ctx.rule = ("E3: scenarios %s (two registrar scripts over A=new 'pa', a=identical 'pa', X=conflicting 'pa', U='PA', B=new 'pb', "
                 "R/r/T/S likewise for resource providers) + a reader doing 2 passes of count/by-slot/by-name, prefill %s, all schedules "
-                "with <=%d preemptions; E2: all 9^d sequential histories for d<=%d. states = distinct schedule prefixes + sequential "
+                "with <=%d preemptions (quick: that bound on A,B / A,X / A,a, one less on the other scenarios); E2: all 9^d sequential histories for d<=%d. states = distinct schedule prefixes + sequential "
                 "histories; every execution runs the real code (traces_validated)" %
                 (scenarios(ctx.thorough), "14/29/0" if ctx.thorough else "14", bound, depth))
     ctx.assumptions = ["sequentially consistent atomics", "cap %d executions per scenario (reported if hit)" % cap]
